@@ -1,0 +1,32 @@
+//go:build verif
+
+package pubsub_controller
+
+import (
+	"context"
+
+	"github.com/aperturerobotics/bifrost/link"
+	"github.com/aperturerobotics/bifrost/protocol"
+	"github.com/aperturerobotics/bifrost/pubsub"
+	"github.com/sirupsen/logrus"
+)
+
+// VerifNewController builds a controller whose PubSub is ps, for tracking
+// several links through one controller instance. Only built with the "verif"
+// tag; used by the verification harness.
+func VerifNewController(le *logrus.Entry, protocolID protocol.ID, ps pubsub.PubSub) *Controller {
+	c := NewController(le, nil, nil, "", protocolID, nil)
+	c.pubSubCtr.SetValue(&ps)
+	return c
+}
+
+// VerifTrackLink runs trackLink for lnk on this controller.
+func (c *Controller) VerifTrackLink(ctx context.Context, le *logrus.Entry, lnk link.MountedLink) error {
+	t := &trackedLink{
+		c:   c,
+		tpl: pubsub.NewPeerLinkTuple(lnk),
+		lnk: lnk,
+		le:  le,
+	}
+	return t.trackLink(ctx)
+}
